@@ -4,9 +4,13 @@ ASSUME = [
     "level fault_enumeration: TLC enumerates the create variant (which credential fields are set), the spelling of the "
     "request's keys (lower case / credential keys capitalised / upper case / alternating case incl. the enclosing "
     "connect-param and sasl keys; the JSON body goes through the production /cdc handler and mapstructure accepts all of "
-    "them), the API sequence and the fault position of every step (k-th store call, or every store call of the step; "
+    "them), the SHAPE of the credential values (plain / leading blank / trailing blank / a tab inside / trailing tab / "
+    "trailing line feed / a byte that is not UTF-8, and which credential fields have it; hand-encoded JSON body so that "
+    "the odd byte reaches the decoder), the API sequence and the fault position of every step (k-th store call, or every store call of the step; "
     "for get / list / position that is the store READ); the ORACLE is a substring scan for unique canary values (raw, and base64 at any "
-    "alignment) over the HTTP answers and over everything the process wrote to fd 1 / fd 2 during the step at log level "
+    "alignment; for an odd-shaped value also its recognisable core = the longest run of the canary the shape leaves "
+    "intact (>= 13 characters) with its base64 forms, and the renderings of the whole value through Go %q / JSON string "
+    "encoders / U+FFFD replacement nested up to three times) over the HTTP answers and over everything the process wrote to fd 1 / fd 2 during the step at log level "
     "debug; the file sink /tmp/cdc_log/cdc.log is fed by the same zap core and is not scanned separately; other "
     "encodings of a secret (hashes, hex, ...) would not be seen",
     "environment: production /cdc handler around a real MetaCDC (verif hooks) over an in-memory store with fail-before "
@@ -28,6 +32,9 @@ C = dict(
         # accepted create in every kind x spelling, then get / list / position with every store read fault: never capped
         dict(name="read", module="Secrets", cfg="Secrets_PlanRead.cfg", workers=4),
         dict(name="create", module="Secrets", cfg="Secrets_PlanCreate.cfg", cap={"quick": 240}, workers=4),
+        # odd-shaped credential values (6 shapes x which fields have it): every create fault + one more call; accepted create + reads
+        dict(name="shape", module="Secrets", cfg="Secrets_PlanShape.cfg", cap={"quick": 300}, workers=4),
+        dict(name="shaperead", module="Secrets", cfg="Secrets_PlanShapeRead.cfg", cap={"quick": 100}, workers=4),
         dict(name="seq3", module="Secrets", cfg="Secrets_PlanSeq3.cfg", cap={"quick": 500}, workers=4),
         dict(name="seq4", module="Secrets", cfg="Secrets_PlanSeq4.cfg", cap={"thorough": 12000}, workers=4, tiers=["thorough"]),
     ],
@@ -52,7 +59,8 @@ def run(tier, replay=None):
         vlib.log("[tlc] Secrets/Secrets_AsBuilt.cfg: violates %s as expected (models the code as built)" % sorted(set(r.violated)))
         # negative controls: defect classes the code does not have; each must violate its clause of the contract
         for cfg, inv, what in (("Secrets_RawKeyMask.cfg", "NoLogLeak", "request log masked by exact comparison of the raw keys"),
-                               ("Secrets_ReadFallback.cfg", "NoRespLeak", "get / list answered from an unmasked copy when the store read fails")):
+                               ("Secrets_ReadFallback.cfg", "NoRespLeak", "get / list answered from an unmasked copy when the store read fails"),
+                               ("Secrets_RejectQuotes.cfg", "NoLogLeak", "request validation refuses an odd-shaped string with an error that quotes the value, credentials included")):
             r = vlib.run_tlc("Secrets", cfg, workers=4, timeout=300)
             if inv not in r.violated:
                 raise vlib.Inconclusive("%s no longer violates %s: the switch is vacuous" % (cfg, inv))
